@@ -195,6 +195,106 @@ fn main() {
                     Ok(Ok(p)) => out.push(json!({"status":"ok","root": block_to_json(p.root()), "hash": format!("{:?}", p.hash())})),
                 }
             }
+            "decode" => {
+                // untrusted bytes -> real deserialiser -> (what the verifier does with the value) under catch_unwind
+                use miden_core::utils::{Deserializable, Serializable, SliceReader};
+                let bytes: Vec<u8> = job["bytes"].as_array().unwrap().iter().map(|b| b.as_u64().unwrap() as u8).collect();
+                let ty = job["type"].as_str().unwrap().to_string();
+                let r = panic::catch_unwind(panic::AssertUnwindSafe(|| -> Value {
+                    let mut rd = SliceReader::new(&bytes);
+                    match ty.as_str() {
+                        "StackInputs" => match miden_core::StackInputs::read_from(&mut rd) {
+                            Ok(v) => json!({"status":"ok","reencoded": v.to_bytes(), "len": v.values().len()}),
+                            Err(e) => json!({"status":"error","error": format!("{e:?}")}),
+                        },
+                        "StackOutputs" => match miden_core::StackOutputs::read_from(&mut rd) {
+                            Ok(v) => {
+                                let re = v.to_bytes();
+                                // what verify() -> ProcessorAir::new / get_assertions does with the outputs
+                                let top = v.stack_top();
+                                let mut n = top.len();
+                                if v.has_overflow() {
+                                    let _ = v.overflow_prev();
+                                    n += v.stack_overflow().len();
+                                }
+                                for i in 0..v.stack().len() { let _ = v.get_stack_item(i); }
+                                json!({"status":"ok","reencoded": re, "used": n})
+                            }
+                            Err(e) => json!({"status":"error","error": format!("{e:?}")}),
+                        },
+                        "Kernel" => match miden_core::Kernel::read_from(&mut rd) {
+                            Ok(v) => json!({"status":"ok","reencoded": v.to_bytes(), "len": v.proc_hashes().len()}),
+                            Err(e) => json!({"status":"error","error": format!("{e:?}")}),
+                        },
+                        "ProgramInfo" => match miden_core::ProgramInfo::read_from(&mut rd) {
+                            Ok(v) => json!({"status":"ok","reencoded": v.to_bytes()}),
+                            Err(e) => json!({"status":"error","error": format!("{e:?}")}),
+                        },
+                        "ExecutionProof" => match miden_air::ExecutionProof::from_bytes(&bytes) {
+                            Ok(v) => json!({"status":"ok","reencoded": v.to_bytes()}),
+                            Err(e) => json!({"status":"error","error": format!("{e:?}")}),
+                        },
+                        t => panic!("unknown type {t}"),
+                    }
+                }));
+                match r {
+                    Ok(v) => out.push(v),
+                    Err(_) => out.push(json!({"status":"panic"})),
+                }
+            }
+            "roundtrip" => {
+                // value built through the public constructors -> to_bytes -> read_from_bytes -> equality
+                use miden_core::utils::{Deserializable, Serializable};
+                let ty = job["type"].as_str().unwrap().to_string();
+                let nums = |k: &str| -> Vec<u64> {
+                    job[k].as_array().map(|a| a.iter().map(|x| x.as_str().map(|s| s.parse::<u64>().unwrap()).unwrap_or_else(|| x.as_u64().unwrap())).collect()).unwrap_or_default()
+                };
+                let digests = |k: &str| -> Vec<miden_core::crypto::hash::RpoDigest> {
+                    nums(k).chunks(4).map(|c| miden_core::crypto::hash::RpoDigest::new([Felt::new(c[0]), Felt::new(c[1]), Felt::new(c[2]), Felt::new(c[3])])).collect()
+                };
+                let r = panic::catch_unwind(panic::AssertUnwindSafe(|| -> Value {
+                    match ty.as_str() {
+                        "StackInputs" => {
+                            let mut vals: Vec<Felt> = nums("values").into_iter().map(Felt::new).collect();
+                            vals.reverse(); // `values` lists the internal (already reversed) order
+                            let v = miden_core::StackInputs::new(vals);
+                            match miden_core::StackInputs::read_from_bytes(&v.to_bytes()) {
+                                Ok(w) => json!({"status":"ok","equal": v.values() == w.values()}),
+                                Err(e) => json!({"status":"ok","equal": false, "error": format!("{e:?}")}),
+                            }
+                        }
+                        "StackOutputs" => match miden_core::StackOutputs::new(nums("stack"), nums("overflow_addrs")) {
+                            Err(e) => json!({"status":"not_constructible","error": format!("{e:?}")}),
+                            Ok(v) => match miden_core::StackOutputs::read_from_bytes(&v.to_bytes()) {
+                                Ok(w) => json!({"status":"ok","equal": v == w}),
+                                Err(e) => json!({"status":"ok","equal": false, "error": format!("{e:?}")}),
+                            },
+                        },
+                        "Kernel" => match miden_core::Kernel::new(&digests("hashes")) {
+                            Err(e) => json!({"status":"not_constructible","error": format!("{e:?}")}),
+                            Ok(v) => match miden_core::Kernel::read_from_bytes(&v.to_bytes()) {
+                                Ok(w) => json!({"status":"ok","equal": v == w}),
+                                Err(e) => json!({"status":"ok","equal": false, "error": format!("{e:?}")}),
+                            },
+                        },
+                        "ProgramInfo" => match miden_core::Kernel::new(&digests("hashes")) {
+                            Err(e) => json!({"status":"not_constructible","error": format!("{e:?}")}),
+                            Ok(k) => {
+                                let v = miden_core::ProgramInfo::new(digests("program_hash")[0], k);
+                                match miden_core::ProgramInfo::read_from_bytes(&v.to_bytes()) {
+                                    Ok(w) => json!({"status":"ok","equal": v == w}),
+                                    Err(e) => json!({"status":"ok","equal": false, "error": format!("{e:?}")}),
+                                }
+                            }
+                        },
+                        t => panic!("unknown type {t}"),
+                    }
+                }));
+                match r {
+                    Ok(v) => out.push(v),
+                    Err(_) => out.push(json!({"status":"panic"})),
+                }
+            }
             "batch_ops" => {
                 // the real Span::new (batch_ops): number of batches, groups and op counts
                 let ops: Vec<Operation> = job["ops"].as_array().unwrap().iter().map(op_from).collect();
